@@ -147,7 +147,11 @@ def gen_blocks(rng, targets, model):
         if b['since']:
             L.append(' * Since: 7.%d' % bid)
         if b['deprecated']:
-            L.append(' * Deprecated: 8.%d: DEP-%d use something else' % (bid, bid))
+            b['dep_text_only'] = rng.random() < 0.3
+            if b['dep_text_only']:
+                L.append(' * Deprecated: DEP-%d use something else' % bid)           # no version: still deprecated
+            else:
+                L.append(' * Deprecated: 8.%d: DEP-%d use something else' % (bid, bid))
         if b['stability']:
             L.append(' * Stability: %s' % b['stability'])
         L.append(' */')
@@ -273,7 +277,10 @@ def judge(model, blocks, gir):
         if b['since']:
             want.add('version')
         if b['deprecated']:
-            want |= {'deprecated-version', 'doc-deprecated'}
+            want |= {'doc-deprecated'} if b.get('dep_text_only') else {'deprecated-version', 'doc-deprecated'}
+            if not (n.tag == 'virtual-method' and n.get('invoker')) and n.get('deprecated') != '1':
+                out.append(('lost:%s:deprecated-flag' % b['kind'], 'block "%s" has a Deprecated: tag (%s) but its %s element lacks deprecated="1"' % (
+                    b['ident'], 'text only' if b.get('dep_text_only') else 'version and text', n.tag)))
         if b['attr']:
             want.add('attribute')
         if n.tag == 'virtual-method' and n.get('invoker'):
